@@ -154,11 +154,11 @@ def run(ctx):
             d["trust_truth"] = True
         named.append(d)
     jobs = batches("basic", named, 150, 0)
-    mut = named if not ctx.quick else rng.sample(named, len(named) // 4)
+    mut = rng.sample(named, len(named) // ctx.pick(4, 3))
     jobs += batches("mutable", mut, 150, len(jobs))
-    comp = named if not ctx.quick else rng.sample(named, min(len(named), 1500))
-    ncompact_first = len(jobs)
-    jobs += batches("compact", comp, 500, len(jobs))
+    # a compact build costs ~3 s of CPU and ~600 MB whatever its size: a seeded sample, many networks per world
+    comp = rng.sample(named, min(len(named), ctx.pick(1500, 15000)))
+    jobs += batches("compact", comp, ctx.pick(500, 300), len(jobs))
     ctx.sample({"world": "basic", "case": named[0]})
     ctx.sample({"world": "compact", "case": comp[len(comp) // 2]})
 
@@ -170,11 +170,11 @@ def run(ctx):
     rnd_first = len(jobs)
     jobs += batches("basic", rnd, 50, len(jobs))
     rnd_compact_first = len(jobs)
-    jobs += batches("compact", rnd[:ctx.pick(50, 800)], 400, len(jobs))
+    jobs += batches("compact", rnd[:ctx.pick(50, 800)], ctx.pick(50, 100), len(jobs))
     jobs += batches("mutable", rnd[:ctx.pick(50, 800)], 50, len(jobs))
     ctx.sample({"world": "basic", "case": {k: rnd[0][k] for k in ("n", "ways", "origin", "limit", "to", "profile")}})
 
-    verdicts = ctx.run_cases(binary, "graph", jobs, workers=8, timeout_ms=240000)
+    verdicts = ctx.run_cases(binary, "graph", jobs, workers=6, timeout_ms=900000, total_timeout=6000)
     by_id = {j["id"]: j for j in jobs}
     retry = []
     searches = 0
@@ -202,7 +202,7 @@ def run(ctx):
                 singles.append({"id": len(singles), "world": job["world"], "subs": [sub]})
         if len(singles) > 2000:
             raise Inconclusive("%d batches crashed; too many sub-cases to isolate" % len(retry))
-        vs = ctx.run_cases(binary, "graph", singles, workers=6, timeout_ms=120000, name="graph-isolate")
+        vs = ctx.run_cases(binary, "graph", singles, workers=4, timeout_ms=300000, name="graph-isolate")
         for v in vs:
             searches += 1
             if v.get("ok"):
